@@ -118,7 +118,7 @@ fn exec_one(sc: &Scenario, ctx: &mut Ctx) -> Vec<Violation> {
         sc.b("input"),
         if sc.l("src_script").is_empty() { RK_SLICE } else { RK_SIM },
         sc.l("src_script"),
-        crate::env::Faults::none(),
+        crate::env::Faults::from_list(sc.l("src_faults")),
         0,
         &mut out,
         &OptSpec::default(),
@@ -195,6 +195,23 @@ impl Property for C18 {
             let r = exec_one(&sc, ctx);
             if !r.is_empty() {
                 return r;
+            }
+            // the refusal of trailing data must not depend on the end-of-file probe
+            // succeeding: the same file through a one-byte-per-refill reader whose
+            // refill right after the first stream's footer fails once
+            if !p.trailing.is_empty() {
+                let first_len = sc.b("input").len() - p.trailing.len();
+                for kind in [crate::env::FK_INTERRUPTED, crate::env::FK_OTHER] {
+                    let mut s2 = sc.clone();
+                    s2.set_l("src_script", vec![1]);
+                    s2.set_l("src_faults", vec![first_len as u64 + 1, kind]);
+                    s2.note = format!("{} ; reader refills one byte at a time and fails once (kind {}) on the refill after the first stream", sc.note, crate::env::fk_name(kind));
+                    ctx.stats.hit("fault.fired.source_error_at_the_end_of_file_probe");
+                    let r = exec_one(&s2, ctx);
+                    if !r.is_empty() {
+                        return r;
+                    }
+                }
             }
         }
         Vec::new()
